@@ -57,7 +57,11 @@ class GitStore_check_duplicate:
                   "message": "str", "author": "opt[str]"},
           returns="bytes", modifies=["self.ghost_M"])
 class GitStore__import_one:
-    """Interface contract (refined by BareGitStore / TreeGitStore): store `data` under `name`."""
+    """Interface contract (refined by BareGitStore / TreeGitStore): store `data` under `name`.
+    ghost_locked: an index.lock exists (tree stores only; constantly False for bare stores)."""
+
+    def raises_LockedError(self):
+        return self.ghost_locked
 
     def ensures(self, name, data, result):
         return (result == blob_id(data)
@@ -120,6 +124,13 @@ class GitStore_import_one:
                 and not refused_dup(self, name, content_type, data)
                 and replace_etag is not None
                 and self.ghost_M.get(effective_name(name, content_type)) != replace_etag)
+
+    def raises_LockedError(self, name, content_type, data, replace_etag):
+        return (valid_file(upload_file(self, name, content_type, data))
+                and not refused_dup(self, name, content_type, data)
+                and not (replace_etag is not None
+                         and self.ghost_M.get(effective_name(name, content_type)) != replace_etag)
+                and self.ghost_locked)
 
     def ensures(self, name, content_type, data, result):
         f = upload_file(self, name, content_type, data)
